@@ -8,7 +8,7 @@ EXTRACT = ['collector', 'frames']
 LEAN_TARGETS = ['DeepModel.Props.C06']
 AUDIT = 'DeepModel/Audit/C06.lean'
 DRIVER = 'DeepModel/Driver/C05.lean'
-BUDGET = {'quick': 800, 'thorough': 10000}
+BUDGET = {'quick': 600, 'thorough': 10000}
 TIME = {'quick': 75, 'thorough': 800}
 RULE = ('"hostile" object graphs bound to a real frame, to watch results, to return values and raised exceptions: bytes, '
         'bytearray, complex, datetime, deque, range, enum members, namedtuples, generators, iterators, functions, builtins, '
@@ -60,6 +60,10 @@ def gen(rng, tier):
             if c['actions'][0]['limits'].get('vars') is not None:
                 c['actions'][0]['limits']['vars'] = None
             c['objs'] = exotic(rng, c['objs'])
+            if c['capture'] == 'return' and rng.random() < 0.5 and c['locals']:
+                # the returned value is a fresh object, first seen after the frame was collected
+                nm = c['locals'][0][0]
+                c['capture_expr'] = rng.choice(['[%s, 1]' % nm, '{"k": %s}' % nm, '(%s, %s)' % (nm, nm), '"fresh " + "value"'])
             yield c
         elif r < 0.90:
             c = cc.gen_case(rng, lim=lim, mock_frames=rng.randint(1, 3), frame_type=rng.choice(['all_frame', 'no_frame']),
@@ -134,7 +138,11 @@ def oracle(case, obs):
     live = cc.live_of(obs)
     if live is None:
         raise core.Infra('oracle called without the live objects of its evaluation')
-    return cc.judge_total(case, obs, live)
+    v = cc.judge_total(case, obs, live)
+    # "every other variable intact": every reference of every snapshot resolves to the entry of ITS object
+    for ai, s in cc.snapshots_by_action(case, obs):
+        v += [f'tp{ai}: ' + x for x in cc.judge_identity(case, obs, live, ai, s)]
+    return v
 
 
 model_request = cc.model_request
